@@ -420,6 +420,8 @@ val list_eq_dec : ('a1 -> 'a1 -> bool) -> 'a1 list -> 'a1 list -> bool
 
 val map : ('a1 -> 'a2) -> 'a1 list -> 'a2 list
 
+val flat_map : ('a1 -> 'a2 list) -> 'a1 list -> 'a2 list
+
 val fold_left : ('a1 -> 'a2 -> 'a1) -> 'a2 list -> 'a1 -> 'a1
 
 val fold_right : ('a2 -> 'a1 -> 'a1) -> 'a1 -> 'a2 list -> 'a1
@@ -427,6 +429,8 @@ val fold_right : ('a2 -> 'a1 -> 'a1) -> 'a1 -> 'a2 list -> 'a1
 val existsb : ('a1 -> bool) -> 'a1 list -> bool
 
 val forallb : ('a1 -> bool) -> 'a1 list -> bool
+
+val filter : ('a1 -> bool) -> 'a1 list -> 'a1 list
 
 val firstn : nat -> 'a1 list -> 'a1 list
 
@@ -464,9 +468,9 @@ type ('a, 'b) singleton = 'a -> 'b
 
 val singleton0 : ('a1, 'a2) singleton -> 'a1 -> 'a2
 
-type ('a, 'b) filter = __ -> ('a -> decision) -> 'b -> 'b
+type ('a, 'b) filter0 = __ -> ('a -> decision) -> 'b -> 'b
 
-val filter0 : ('a1, 'a2) filter -> ('a1 -> decision) -> 'a2 -> 'a2
+val filter1 : ('a1, 'a2) filter0 -> ('a1 -> decision) -> 'a2 -> 'a2
 
 type 'm mRet = __ -> __ -> 'm
 
@@ -1284,3 +1288,27 @@ val positions : nat -> n -> n list
 val recover_log : disk -> disk option
 
 val fs_part : disk -> (n * bytes) list
+
+type tev =
+| TAcq of n
+| TRel of n
+| TCommit of bool
+| TCommitted of bool
+| TAbort
+| TFlush
+| TFlushed of bool
+| TFresh of n
+
+val remove1 : n -> n list -> n list
+
+val asc_f : n list -> n list -> tev list -> bool
+
+val asc_b : n list -> tev list -> bool
+
+val commit_phase_b : n -> tev list -> bool
+
+val balanced_b : n list -> tev list -> bool
+
+val waits : tev list -> bool list
+
+val committed : tev list -> bool
